@@ -968,7 +968,7 @@ Let X : list N :=
 
 Lemma body_eq : write_body now (prepare s) = (header v ++ X) ++ [78].
 Proof.
-  unfold write_body. rewrite p_st_info. unfold X.
+  unfold write_body. change (p_blockmax (prepare s)) with (alloc_size s). rewrite p_st_info. change (alloc_size s) with bm. unfold X.
   change (version (p_st (prepare s))) with v. change (c_block_size (p_st (prepare s))) with (c_block_size s).
   change (p_blockmax (prepare s)) with bm. change (c_hash_size (p_st (prepare s))) with (c_hash_size s).
   change (c_hash (p_st (prepare s))) with (c_hash s). change (c_hashseed (p_st (prepare s))) with (c_hashseed s).
@@ -986,3 +986,144 @@ Proof.
   eapply seg_app; [exact seg_c|]. eapply seg_app; [exact seg_C|]. eapply seg_app; [exact seg_M|].
   eapply seg_app; [exact seg_P|]. eapply seg_app; [exact seg_D|]. exact seg_I.
 Qed.
+
+(* ---- the checks at the end of the load ---- *)
+Lemma forall2_nth {A B} (P : A -> B -> Prop) da db : forall (l1 : list A) (l2 : list B), length l1 = length l2 ->
+  (forall j, (j < length l1)%nat -> P (nth j l1 da) (nth j l2 db)) -> Forall2 P l1 l2.
+Proof.
+  induction l1 as [|x l1 IH]; intros [|y l2] Hl H; try discriminate; [constructor|].
+  constructor; [apply (H O); cbn; lia|]. apply IH; [cbn in Hl; lia|]. intros j Hj. apply (H (S j)). cbn. lia.
+Qed.
+
+Lemma unmapped_no_files : Forall2 (fun x oi => oi = None -> cd_files x = []) (c_disks s) idxs.
+Proof.
+  apply (forall2_nth _ (empty_disk []) None); [rewrite idxs_length, D_length; reflexivity|].
+  intros j Hj Hnone. set (x := nth j (c_disks s) (empty_disk [])) in *.
+  destruct (cd_files x) as [|f fs] eqn:Ef; [reflexivity|exfalso].
+  assert (Hx : In x (c_disks s)) by (apply nth_In; exact Hj).
+  assert (Hne : disk_empty x bm = false) by (unfold disk_empty; rewrite Ef; reflexivity).
+  pose proof (wf_mapped s W x Hx Hne) as Hm. apply in_map_iff in Hm. destruct Hm as [m [Hname Hm]].
+  pose proof (proj2 idxs_spec m Hm) as Hk. unfold map_kept in Hk.
+  destruct (dix_spec D (cm_name m) (maps_resolvable m Hm)) as [Hf _]. rewrite Hf in Hk.
+  assert (Hj' : (j < length D)%nat) by (rewrite D_length; exact Hj).
+  assert (Hdj : dix D (cm_name m) = j).
+  { rewrite Hname. replace (cd_name x) with (cd_name (nth j D (empty_disk []))).
+    - apply dix_nth; [rewrite D_names; exact (wf_names s W)|exact Hj'].
+    - unfold D, pdisks. rewrite (nth_indep _ _ (prep_disk s bm (empty_disk [])) ) by (rewrite map_length; exact Hj).
+      rewrite map_nth. reflexivity. }
+  rewrite Hdj, Hnone in Hk. unfold nonempty_map in Hk. rewrite Hdj in Hk.
+  assert (Hd : disk_empty (nth j D (empty_disk [])) bm = false).
+  { unfold D, pdisks. rewrite (nth_indep _ _ (prep_disk s bm (empty_disk []))) by (rewrite map_length; exact Hj).
+    rewrite map_nth. fold x. unfold disk_empty. rewrite prep_disk_files, Ef. reflexivity. }
+  rewrite Hd in Hk. discriminate.
+Qed.
+
+Lemma blocks_same : map disk_blocks (norm_disks bm D idxs) = map disk_blocks (c_disks s).
+Proof.
+  unfold D, pdisks. pose proof unmapped_no_files as F. induction F as [|x oi L I Hx _ IH]; [reflexivity|].
+  cbn [map norm_disks]. rewrite IH. f_equal. destruct oi; [reflexivity|]. unfold disk_blocks. rewrite (Hx eq_refl). reflexivity.
+Qed.
+
+Lemma d9_alloc : alloc_size (d_st d9) = bm.
+Proof.
+  unfold alloc_size at 1, all_blocks. change (c_disks (d_st d9)) with (norm_disks bm D idxs). rewrite blocks_same. reflexivity.
+Qed.
+
+Lemma nodupb_spec l : nodupb l = true <-> NoDup l.
+Proof.
+  induction l as [|x l IH]; [split; [constructor|reflexivity]|]. cbn [nodupb]. rewrite andb_true_iff, negb_true_iff, IH.
+  split.
+  - intros [H1 H2]. constructor; [|exact H2]. intros Hin. assert (existsb (N.eqb x) l = true); [|congruence].
+    apply existsb_exists. exists x. split; [exact Hin|apply N.eqb_refl].
+  - intros H. inversion H as [|? ? H1 H2]; subst. split; [|exact H2].
+    destruct (existsb (N.eqb x) l) eqn:E; [|reflexivity]. apply existsb_exists in E. destruct E as [y [Hy Ey]].
+    apply N.eqb_eq in Ey. subst y. contradiction.
+Qed.
+
+Lemma NoDup_app_sub {A} (a b b' : list A) : (forall x, In x b' -> In x b) -> NoDup b' -> NoDup (a ++ b) -> NoDup (a ++ b').
+Proof.
+  intros Hsub Hb'. induction a as [|x a IH]; intros H; [exact Hb'|]. cbn [app] in *. inversion H as [|? ? H1 H2]; subst.
+  constructor; [|apply IH; exact H2]. intros Hin. apply H1. apply in_app_or in Hin. apply in_or_app.
+  destruct Hin as [Hin|Hin]; [left; exact Hin|right; apply Hsub; exact Hin].
+Qed.
+
+Lemma NoDup_app_tail {A} (a b : list A) : NoDup (a ++ b) -> NoDup b.
+Proof. induction a as [|x a IH]; intros H; [exact H|]. cbn [app] in H. inversion H; subst. apply IH. assumption. Qed.
+
+Lemma NoDup_map_filter {A B} (f : A -> B) p (l : list A) : NoDup (map f l) -> NoDup (map f (filter p l)).
+Proof.
+  induction l as [|x l IH]; intros H; [constructor|]. cbn [map] in H. inversion H as [|? ? H1 H2]; subst. cbn [filter].
+  destruct (p x); [|apply IH; exact H2]. cbn [map]. constructor; [|apply IH; exact H2].
+  intros Hin. apply H1. apply in_map_iff in Hin. destruct Hin as [y [Ey Hy]]. apply filter_In in Hy. rewrite <- Ey. apply in_map. tauto.
+Qed.
+
+Lemma d9_unique : forallb pos_unique (c_disks (d_st d9)) = true.
+Proof.
+  change (c_disks (d_st d9)) with (norm_disks bm D idxs). apply forallb_forall. intros d' Hd.
+  destruct (norm_disks_in bm D idxs d' Hd) as [x [oi [Hx ->]]].
+  unfold D, pdisks in Hx. apply in_map_iff in Hx. destruct Hx as [y [<- Hy]].
+  destruct oi as [i|]; [|reflexivity].
+  pose proof (wf_disks s W) as WD. rewrite Forall_forall in WD. destruct (WD y Hy) as [_ [_ [_ [_ [_ [_ Hu]]]]]].
+  unfold pos_unique in *. apply nodupb_spec. apply nodupb_spec in Hu.
+  cbn [norm_disk set_deleted prep_disk cd_deleted disk_blocks cd_files].
+  change (concat (map cf_blocks (cd_files y))) with (disk_blocks y).
+  apply (NoDup_app_sub _ (map fst (cd_deleted y))); [| |exact Hu].
+  - intros p Hp. apply in_map_iff in Hp. destruct Hp as [ph [<- Hph]]. apply filter_In in Hph. destruct Hph as [Hph _].
+    apply filter_In in Hph. apply in_map. tauto.
+  - apply NoDup_map_filter. apply NoDup_map_filter. apply NoDup_app_tail in Hu. exact Hu.
+Qed.
+
+Lemma maps_distinct_spec l : NoDup (map cm_name l) -> NoDup (map cm_pos l) -> maps_distinct l = true.
+Proof.
+  induction l as [|m l IH]; intros H1 H2; [reflexivity|]. cbn [map] in *. inversion H1 as [|? ? A1 A2]; subst. inversion H2 as [|? ? B1 B2]; subst.
+  cbn [maps_distinct]. rewrite (IH A2 B2), andb_true_r. apply negb_true_iff. apply existsb_false_intro. intros o Ho.
+  apply orb_false_iff. split.
+  - destruct (bytes_eqb (cm_name m) (cm_name o)) eqn:E; [|reflexivity]. apply bytes_eqb_eq in E. exfalso. apply A1. rewrite E. apply in_map. exact Ho.
+  - apply N.eqb_neq. intros E. apply B1. rewrite E. apply in_map. exact Ho.
+Qed.
+
+Lemma d9_maps : maps_distinct (c_maps (d_st d9)) = true.
+Proof.
+  change (c_maps (d_st d9)) with kept. unfold kept.
+  apply maps_distinct_spec; apply NoDup_map_filter; [exact (wf_map_names s W)|exact (wf_map_pos s W)].
+Qed.
+
+Lemma d9_hash : (c_hash (d_st d9) =? H_UNDEF) = false.
+Proof.
+  assert (E : c_hash (d_st d9) = c_hash s) by (unfold d9, d8, d7, d6, d5; destruct keep; reflexivity).
+  rewrite E. destruct (wf_hash s W) as [-> | [-> | ->]]; reflexivity.
+Qed.
+
+Lemma d9_state : d_st d9 = normalise now s.
+Proof.
+  unfold normalise. change (p_blockmax (prepare s)) with (alloc_size s). rewrite p_st_info.
+  change (c_disks (p_st (prepare s))) with D. change (p_idx (prepare s)) with idxs. change (c_maps (p_st (prepare s))) with (c_maps s).
+  rewrite kept_eq.
+  unfold d9, d8, d7, d6, d5. fold il. unfold keep.
+  change (c_prevhash (p_st (prepare s))) with (c_prevhash s). change (p_rehash (prepare s)) with (existsb info_rehash il).
+  destruct (negb (c_prevhash s =? H_UNDEF) && existsb info_rehash il); reflexivity.
+Qed.
+
+Theorem decode_encode_rt : decode (conf_of s) (encode now s) = Ok (normalise now s).
+Proof.
+  fold k. fold all. unfold decode.
+  assert (Hall : all = header v ++ (X ++ 78 :: sputble32 (crc32c_spec 0 ((header v ++ X) ++ [78])))).
+  { unfold all, encode, add_crc. rewrite body_eq. rewrite <- !app_assoc. reflexivity. }
+  rewrite Hall at 1. rewrite take_header.
+  assert (Hh : bytes_eqb (header v) (header 1) || bytes_eqb (header v) (header 2) || bytes_eqb (header v) (header 3) = true).
+  { destruct v_cases as [->|[-> _]]; reflexivity. }
+  rewrite Hh. fold d0.
+  destruct seg_X as [n [Hn HX]].
+  set (crc4 := sputble32 (crc32c_spec 0 ((header v ++ X) ++ [78]))).
+  assert (Hlen : length (X ++ 78 :: crc4) = (n + S (length X - n + 4))%nat).
+  { rewrite app_length. cbn [length]. unfold crc4, sputble32. cbn [length]. lia. }
+  rewrite Hlen, HX.
+  assert (Hall' : all = add_crc ((header v ++ X) ++ [78])).
+  { unfold all, encode. rewrite body_eq. reflexivity. }
+  rewrite Hall'. unfold crc4. rewrite records_crc by reflexivity.
+  cbn [d_crc negb d_st d_blockmax].
+  rewrite d9_unique. cbn [negb]. change (d_blockmax d9) with bm. rewrite d9_alloc, N.eqb_refl. cbn [negb andb].
+  rewrite d9_hash, d9_maps. cbn [negb]. rewrite d9_state. reflexivity.
+Qed.
+End RoundTrip.
+
